@@ -73,7 +73,7 @@ ssize_t write(int fd, const void* buf, size_t count) {
   return syscall(SYS_write, fd, buf, count);
 }
 int close(int fd) {
-  if (fd == VT_FD_SRC || fd == VT_FD_DST || fd == -1) return vt_posix_close(fd);
+  if (fd == VT_FD_SRC || fd == VT_FD_DST || fd == -1 || (vt_fd.watching && fd == vt_fd.watch_fd)) return vt_posix_close(fd);
   return static_cast<int>(syscall(SYS_close, fd));
 }
 }
